@@ -1,7 +1,488 @@
-(* Lemmas about Model/Reck.v (property C14). *)
-From Coq Require Import ZArith Arith List Bool Lia.
+(* Lemmas about Model/Reck.v (property C14).
+   Part 1 (Section Gen): algebra over an abstract commutative *-ring playing
+   the role of the complex numbers: 2x2 blocks, the unit cell, one nulling
+   step, the rebuilt product, the mode flip. *)
+From Coq Require Import ZArith Arith List Bool Lia Ring.
 From LW Require Import Base.Num Base.Sums Base.Mat Base.Embed Base.Sx Model.Reck.
 Import ListNotations.
 
-Lemma reck_steps_length_2 : length (reck_steps 2) = 1.
-Proof. reflexivity. Qed.
+Section Gen.
+  Context {K : Type} {o : ops K} {SR : StarRing o}.
+  Let Rr := sr_ring (o:=o).
+  Add Ring Kr : Rr.
+  Local Notation "0" := (k0 o).
+  Local Notation "1" := (k1 o).
+  Local Notation "a + b" := (kadd o a b).
+  Local Notation "a * b" := (kmul o a b).
+  Local Notation "a - b" := (ksub o a b).
+  Local Notation "- a" := (kopp o a).
+  Local Notation conj := (kconj o).
+  Local Notation sumn := (sumn o).
+  Local Notation mmul := (mmul o).
+  Local Notation madj := (madj o).
+  Local Notation mid := (mid o).
+  Local Notation meq := (@meq K).
+  Local Notation embed2 := (embed2 o).
+  Local Notation phase_mat := (phase_mat o).
+  Local Notation mat := (@mat K).
+
+  (* ---- entries of an embedded block ---- *)
+  Lemma embed2_aa a b u00 u01 u10 u11 : embed2 a b u00 u01 u10 u11 a a = u00.
+  Proof. unfold Mat.embed2. rewrite !Nat.eqb_refl. reflexivity. Qed.
+  Lemma embed2_ab a b u00 u01 u10 u11 : a <> b -> embed2 a b u00 u01 u10 u11 a b = u01.
+  Proof.
+    intros H. unfold Mat.embed2. rewrite !Nat.eqb_refl.
+    replace (b =? a) with false by (symmetry; apply Nat.eqb_neq; lia). reflexivity.
+  Qed.
+  Lemma embed2_ba a b u00 u01 u10 u11 : a <> b -> embed2 a b u00 u01 u10 u11 b a = u10.
+  Proof.
+    intros H. unfold Mat.embed2. rewrite !Nat.eqb_refl.
+    replace (b =? a) with false by (symmetry; apply Nat.eqb_neq; lia). reflexivity.
+  Qed.
+  Lemma embed2_bb a b u00 u01 u10 u11 : a <> b -> embed2 a b u00 u01 u10 u11 b b = u11.
+  Proof.
+    intros H. unfold Mat.embed2. rewrite !Nat.eqb_refl.
+    replace (b =? a) with false by (symmetry; apply Nat.eqb_neq; lia). reflexivity.
+  Qed.
+  Lemma embed2_a_out a b u00 u01 u10 u11 k : k <> a -> k <> b -> embed2 a b u00 u01 u10 u11 a k = 0.
+  Proof.
+    intros Ha Hb. unfold Mat.embed2. rewrite Nat.eqb_refl.
+    apply Nat.eqb_neq in Ha, Hb. rewrite Ha, Hb. reflexivity.
+  Qed.
+  Lemma embed2_b_out a b u00 u01 u10 u11 k : a <> b -> k <> a -> k <> b -> embed2 a b u00 u01 u10 u11 b k = 0.
+  Proof.
+    intros Hab Ha Hb. unfold Mat.embed2. rewrite Nat.eqb_refl.
+    replace (b =? a) with false by (symmetry; apply Nat.eqb_neq; lia).
+    apply Nat.eqb_neq in Ha, Hb. rewrite Ha, Hb. reflexivity.
+  Qed.
+  Lemma embed2_out_a a b u00 u01 u10 u11 k : k <> a -> k <> b -> embed2 a b u00 u01 u10 u11 k a = 0.
+  Proof.
+    intros Ha Hb. rewrite embed2_out_l by assumption. apply mid_neq. assumption.
+  Qed.
+  Lemma embed2_out_b a b u00 u01 u10 u11 k : k <> a -> k <> b -> embed2 a b u00 u01 u10 u11 k b = 0.
+  Proof.
+    intros Ha Hb. rewrite embed2_out_l by assumption. apply mid_neq. assumption.
+  Qed.
+
+  Lemma embed2_swap a b u00 u01 u10 u11 i j :
+    a <> b -> embed2 a b u00 u01 u10 u11 i j = embed2 b a u11 u10 u01 u00 i j.
+  Proof.
+    intros Hab. unfold Mat.embed2.
+    destruct (Nat.eqb_spec i a), (Nat.eqb_spec i b), (Nat.eqb_spec j a), (Nat.eqb_spec j b);
+      subst; try lia; reflexivity.
+  Qed.
+
+  Lemma phase_embed2_a a b e i j : a <> b -> phase_mat a e i j = embed2 a b e 0 0 1 i j.
+  Proof.
+    intros Hab. unfold Mat.phase_mat, Mat.embed2, Mat.mid.
+    destruct (Nat.eqb_spec i j), (Nat.eqb_spec i a), (Nat.eqb_spec i b), (Nat.eqb_spec j a), (Nat.eqb_spec j b);
+      subst; try lia; reflexivity.
+  Qed.
+  Lemma phase_embed2_b a b e i j : a <> b -> phase_mat b e i j = embed2 a b 1 0 0 e i j.
+  Proof.
+    intros Hab. unfold Mat.phase_mat, Mat.embed2, Mat.mid.
+    destruct (Nat.eqb_spec i j), (Nat.eqb_spec i a), (Nat.eqb_spec i b), (Nat.eqb_spec j a), (Nat.eqb_spec j b);
+      subst; try lia; reflexivity.
+  Qed.
+
+  (* ---- multiplication by an embedded block: rows / columns a, b ---- *)
+  Lemma mmul_embed2_l n a b u00 u01 u10 u11 M i j :
+    a < n -> b < n -> a <> b -> i < n ->
+    mmul n (embed2 a b u00 u01 u10 u11) M i j =
+      if i =? a then u00 * M a j + u01 * M b j
+      else if i =? b then u10 * M a j + u11 * M b j else M i j.
+  Proof.
+    intros Ha Hb Hab Hi. unfold Mat.mmul.
+    destruct (Nat.eqb_spec i a) as [->|Hia]; [|destruct (Nat.eqb_spec i b) as [->|Hib]].
+    - rewrite (sumn_two n a b) by
+        (try assumption; intros k _ H1 H2; rewrite embed2_a_out by assumption; ring).
+      rewrite embed2_aa, embed2_ab by assumption. reflexivity.
+    - rewrite (sumn_two n a b) by
+        (try assumption; intros k _ H1 H2; rewrite embed2_b_out by assumption; ring).
+      rewrite embed2_ba, embed2_bb by assumption. reflexivity.
+    - rewrite (sumn_single n i); try assumption.
+      + rewrite embed2_out_l, mid_eq by assumption. ring.
+      + intros k _ Hk. rewrite embed2_out_l, mid_neq by auto. ring.
+  Qed.
+
+  Lemma mmul_embed2_r n a b u00 u01 u10 u11 M i j :
+    a < n -> b < n -> a <> b -> j < n ->
+    mmul n M (embed2 a b u00 u01 u10 u11) i j =
+      if j =? a then M i a * u00 + M i b * u10
+      else if j =? b then M i a * u01 + M i b * u11 else M i j.
+  Proof.
+    intros Ha Hb Hab Hj. unfold Mat.mmul.
+    destruct (Nat.eqb_spec j a) as [->|Hja]; [|destruct (Nat.eqb_spec j b) as [->|Hjb]].
+    - rewrite (sumn_two n a b) by
+        (try assumption; intros k _ H1 H2; rewrite embed2_out_a by assumption; ring).
+      rewrite embed2_aa, embed2_ba by assumption. reflexivity.
+    - rewrite (sumn_two n a b) by
+        (try assumption; intros k _ H1 H2; rewrite embed2_out_b by assumption; ring).
+      rewrite embed2_ab, embed2_bb by assumption. reflexivity.
+    - rewrite (sumn_single n j); try assumption.
+      + rewrite embed2_out_r, mid_eq by assumption. ring.
+      + intros k _ Hk. rewrite embed2_out_r, mid_neq by auto. ring.
+  Qed.
+
+  Lemma embed2_mmul n a b a00 a01 a10 a11 b00 b01 b10 b11 :
+    a < n -> b < n -> a <> b ->
+    meq n (mmul n (embed2 a b a00 a01 a10 a11) (embed2 a b b00 b01 b10 b11))
+          (embed2 a b (a00 * b00 + a01 * b10) (a00 * b01 + a01 * b11)
+                      (a10 * b00 + a11 * b10) (a10 * b01 + a11 * b11)).
+  Proof.
+    intros Ha Hb Hab i j Hi Hj. rewrite mmul_embed2_l by assumption.
+    destruct (Nat.eqb_spec i a) as [->|Hia]; [|destruct (Nat.eqb_spec i b) as [->|Hib]].
+    - destruct (Nat.eq_dec j a) as [->|Hja]; [|destruct (Nat.eq_dec j b) as [->|Hjb]].
+      + rewrite !embed2_aa, embed2_ba by assumption. reflexivity.
+      + rewrite !embed2_ab, embed2_bb by assumption. reflexivity.
+      + rewrite !embed2_a_out, embed2_b_out by assumption. ring.
+    - destruct (Nat.eq_dec j a) as [->|Hja]; [|destruct (Nat.eq_dec j b) as [->|Hjb]].
+      + rewrite embed2_aa, !embed2_ba by assumption. reflexivity.
+      + rewrite embed2_ab, !embed2_bb by assumption. reflexivity.
+      + rewrite embed2_a_out, !embed2_b_out by assumption. ring.
+    - rewrite !(embed2_out_l a b _ _ _ _ i j) by assumption. reflexivity.
+  Qed.
+
+  Lemma embed2_ext a b u00 u01 u10 u11 v00 v01 v10 v11 :
+    u00 = v00 -> u01 = v01 -> u10 = v10 -> u11 = v11 ->
+    embed2 a b u00 u01 u10 u11 = embed2 a b v00 v01 v10 v11.
+  Proof. intros -> -> -> ->. reflexivity. Qed.
+
+  Lemma mmul_phase_l n a e M i j :
+    i < n -> mmul n (phase_mat a e) M i j = if i =? a then e * M i j else M i j.
+  Proof.
+    intros Hi. unfold Mat.mmul. rewrite (sumn_single n i); try assumption.
+    - unfold Mat.phase_mat. rewrite Nat.eqb_refl. destruct (i =? a); ring.
+    - intros k _ Hk. unfold Mat.phase_mat. apply Nat.eqb_neq in Hk. rewrite Nat.eqb_sym, Hk. ring.
+  Qed.
+
+  (* ---- the unit cell: amplitudes c = cos(theta/2), s = sin(theta/2), e = exp(i phi),
+          g = i (c + i s), ii = the imaginary unit, h = 1/sqrt 2 ---- *)
+  Section Cell.
+    Variables (c s e g ii h : K).
+    Hypothesis Hc : conj c = c.
+    Hypothesis Hs : conj s = s.
+    Hypothesis Hcs : c * c = 1 - s * s.
+    Hypothesis He : e * conj e = 1.
+    Hypothesis Hg : g * conj g = 1.
+
+    Lemma bs_unit2 : unit2 (o:=o) (((- e) * s) * g) (c * g) ((e * c) * g) (s * g).
+    Proof.
+      unfold unit2. rewrite !sr_conj_mul, sr_conj_opp, Hc, Hs. repeat split.
+      - transitivity ((e * conj e) * (g * conj g) * (s * s + c * c)); [ring|]. rewrite He, Hg. ring [Hcs].
+      - ring.
+      - ring.
+      - transitivity ((g * conj g) * (c * c + s * s)); [ring|]. rewrite Hg. ring [Hcs].
+    Qed.
+
+    Lemma bs_unit2_adj :
+      unit2 (o:=o) (conj (((- e) * s) * g)) (conj ((e * c) * g)) (conj (c * g)) (conj (s * g)).
+    Proof.
+      unfold unit2. rewrite !sr_conj_inv. rewrite !sr_conj_mul, sr_conj_opp, Hc, Hs. repeat split.
+      - transitivity ((g * conj g) * ((e * conj e) * (s * s) + c * c)); [ring|]. rewrite He, Hg. ring [Hcs].
+      - transitivity ((g * conj g) * (s * c) * (1 - e * conj e)); [ring|]. rewrite He. ring.
+      - transitivity ((g * conj g) * (s * c) * (1 - e * conj e)); [ring|]. rewrite He. ring.
+      - transitivity ((g * conj g) * ((e * conj e) * (c * c) + s * s)); [ring|]. rewrite He, Hg. ring [Hcs].
+    Qed.
+
+    Lemma bs_unitary_gen n a b :
+      a < n -> b < n -> a <> b ->
+      unitary o n (embed2 a b (((- e) * s) * g) (c * g) ((e * c) * g) (s * g)).
+    Proof.
+      intros Ha Hb Hab. apply unitary_embed2; try assumption; [apply bs_unit2 | apply bs_unit2_adj].
+    Qed.
+
+    Hypothesis Hii : ii * ii = - (1).
+    Hypothesis Hh : h * h + h * h = 1.
+    Hypothesis Hgdef : g = ii * (c + ii * s).
+
+    (* bs(m); ps(m, theta); bs(m); with exp(i theta) = (c + i s)^2, after ps(m+1, phi):
+       BS . P_m(E) . BS . P_{m+1}(e)  =  the block [[s g, e c g], [c g, -e s g]] on (m, m+1) *)
+    Lemma cell_product n m E :
+      S m < n -> E = (c + ii * s) * (c + ii * s) ->
+      meq n (mmul n (embed2 m (S m) h (ii * h) (ii * h) h)
+               (mmul n (phase_mat m E)
+                  (mmul n (embed2 m (S m) h (ii * h) (ii * h) h) (phase_mat (S m) e))))
+            (embed2 m (S m) (s * g) ((e * c) * g) (c * g) (((- e) * s) * g)).
+    Proof.
+      intros Hm HE.
+      assert (Hne : m <> S m) by lia. assert (Hm' : m < n) by lia.
+      eapply meq_trans.
+      { apply mmul_compat; [apply meq_refl|]. apply mmul_compat.
+        - intros i j _ _. apply (phase_embed2_a m (S m)); assumption.
+        - apply mmul_compat; [apply meq_refl|]. intros i j _ _. apply (phase_embed2_b m (S m)); assumption. }
+      eapply meq_trans.
+      { apply mmul_compat; [apply meq_refl|]. apply mmul_compat; [apply meq_refl|].
+        apply embed2_mmul; assumption. }
+      eapply meq_trans.
+      { apply mmul_compat; [apply meq_refl|]. apply embed2_mmul; assumption. }
+      eapply meq_trans; [apply embed2_mmul; assumption|].
+      assert (E1 : E - 1 = (1 + 1) * (s * g)) by (rewrite HE, Hgdef; ring [Hcs Hii]).
+      assert (E2 : ii * (E + 1) = (1 + 1) * (c * g)) by (rewrite HE, Hgdef; ring [Hcs Hii]).
+      assert (H2 : forall x, (h * h) * ((1 + 1) * x) = x).
+      { intros x. transitivity ((h * h + h * h) * x); [ring|]. rewrite Hh. ring. }
+      intros i j _ _.
+      match goal with |- ?A i j = ?B i j => assert (EE : A = B); [|rewrite EE; reflexivity] end.
+      apply embed2_ext.
+      - transitivity ((h * h) * (E - 1)); [ring [Hii]|]. rewrite E1. apply H2.
+      - transitivity (e * ((h * h) * (ii * (E + 1)))); [ring|]. rewrite E2, H2. ring.
+      - transitivity ((h * h) * (ii * (E + 1))); [ring|]. rewrite E2. apply H2.
+      - transitivity (- e * ((h * h) * (E - 1))); [ring [Hii]|]. rewrite E1, H2. ring.
+    Qed.
+  End Cell.
+
+  (* ---- one nulling step: right-multiplication by the adjoint of a block on (j, j+1) ---- *)
+  Lemma null_update_entry n a b u00 u01 u10 u11 U r x :
+    a < n -> b < n -> a <> b -> x < n ->
+    mmul n U (madj (embed2 a b u00 u01 u10 u11)) r x =
+      if x =? a then U r a * conj u00 + U r b * conj u01
+      else if x =? b then U r a * conj u10 + U r b * conj u11 else U r x.
+  Proof.
+    intros Ha Hb Hab Hx.
+    transitivity (mmul n U (embed2 a b (conj u00) (conj u10) (conj u01) (conj u11)) r x).
+    - unfold Mat.mmul. apply sumn_ext. intros k _. rewrite madj_embed2 by assumption. reflexivity.
+    - apply mmul_embed2_r; assumption.
+  Qed.
+
+  Section NullStep.
+    Variables (c s e g : K).
+    Hypothesis Hc : conj c = c.
+    Hypothesis Hs : conj s = s.
+    Let T (j : nat) := embed2 j (S j) (((- e) * s) * g) (c * g) ((e * c) * g) (s * g).
+
+    (* the new entry in column j is conj g (c u_{j+1} - conj e . s . u_j) *)
+    Lemma null_step_target n U r j :
+      S j < n ->
+      mmul n U (madj (T j)) r j = conj g * (c * U r (S j) - conj e * s * U r j).
+    Proof.
+      intros Hj. unfold T. rewrite null_update_entry by lia. rewrite Nat.eqb_refl.
+      rewrite !sr_conj_mul, sr_conj_opp, Hc, Hs. ring.
+    Qed.
+
+    (* nulling equation  c u_{j+1} = conj e . s . u_j  =>  the target becomes 0 *)
+    Lemma null_step_zero n U r j :
+      S j < n -> c * U r (S j) = conj e * s * U r j -> mmul n U (madj (T j)) r j = 0.
+    Proof. intros Hj H. rewrite null_step_target by assumption. rewrite H. ring. Qed.
+
+    (* a row whose entries in columns j, j+1 vanish keeps them; other columns are untouched *)
+    Lemma null_step_keeps_zero n U r j x :
+      S j < n -> x < n -> U r x = 0 -> (x = j \/ x = S j -> U r j = 0 /\ U r (S j) = 0) ->
+      mmul n U (madj (T j)) r x = 0.
+    Proof.
+      intros Hj Hx H0 Hpair. unfold T. rewrite null_update_entry by lia.
+      destruct (Nat.eqb_spec x j) as [->|Hxj]; [|destruct (Nat.eqb_spec x (S j)) as [->|Hxs]].
+      - destruct Hpair as [A B]; [left; reflexivity|]. rewrite A, B. ring.
+      - destruct Hpair as [A B]; [right; reflexivity|]. rewrite A, B. ring.
+      - exact H0.
+    Qed.
+
+    Lemma null_step_other_col n U r j x :
+      S j < n -> x < n -> x <> j -> x <> S j -> mmul n U (madj (T j)) r x = U r x.
+    Proof.
+      intros Hj Hx H1 H2. unfold T. rewrite null_update_entry by lia.
+      apply Nat.eqb_neq in H1, H2. rewrite H1, H2. reflexivity.
+    Qed.
+  End NullStep.
+
+  (* ---- the rebuilt product ---- *)
+  Definition nulled (n : nat) (U : mat) (Ts : list mat) : mat :=
+    fold_left (fun M T => tab o n (mmul n M (madj T))) Ts U.
+  Fixpoint prodT (n : nat) (Ts : list mat) : mat :=
+    match Ts with
+    | [] => mid
+    | T :: Ts' => mmul n (prodT n Ts') T
+    end.
+
+  Lemma nulled_compat n Ts U U' : meq n U U' -> meq n (nulled n U Ts) (nulled n U' Ts).
+  Proof.
+    revert U U'; induction Ts as [|T Ts IH]; intros U U' H; simpl; [exact H|].
+    apply IH. eapply meq_trans; [apply tab_spec|]. eapply meq_trans; [|apply meq_sym, tab_spec].
+    apply mmul_compat; [exact H|apply meq_refl].
+  Qed.
+
+  (* U = (U T1^+ ... TK^+) . TK ... T1 when every T is (left-)unitary *)
+  Lemma nulled_rebuild n Ts U :
+    Forall (lunit o n) Ts -> meq n U (mmul n (nulled n U Ts) (prodT n Ts)).
+  Proof.
+    revert U; induction Ts as [|T Ts IH]; intros U HT; simpl.
+    - apply meq_sym, mmul_id_r.
+    - inversion HT as [|? ? HT1 HT2]; subst.
+      set (U1 := tab o n (mmul n U (madj T))).
+      apply meq_trans with (mmul n (mmul n (nulled n U1 Ts) (prodT n Ts)) T).
+      2:{ intros i j _ _. apply mmul_assoc. }
+      apply meq_trans with (mmul n U1 T).
+      2:{ apply mmul_compat; [apply IH; assumption|apply meq_refl]. }
+      apply meq_trans with (mmul n (mmul n U (madj T)) T).
+      2:{ apply mmul_compat; [apply meq_sym, tab_spec|apply meq_refl]. }
+      apply meq_trans with (mmul n U (mmul n (madj T) T)).
+      2:{ intros i j _ _. symmetry. apply mmul_assoc. }
+      apply meq_trans with (mmul n U mid); [apply meq_sym, mmul_id_r|].
+      apply mmul_compat; [apply meq_refl|apply meq_sym; exact HT1].
+  Qed.
+
+  Lemma nulled_unitary n Ts U :
+    Forall (unitary o n) Ts -> unitary o n U -> unitary o n (nulled n U Ts).
+  Proof.
+    revert U; induction Ts as [|T Ts IH]; intros U HT HU; simpl; [exact HU|].
+    inversion HT; subst. apply IH; [assumption|].
+    apply unitary_tab, unitary_mmul; [assumption|apply unitary_madj; assumption].
+  Qed.
+
+  (* a unitary diagonal matrix has unit-modulus diagonal entries *)
+  Lemma diag_unit_modulus n D i :
+    lunit o n D -> i < n -> (forall a b, a < n -> b < n -> a <> b -> D a b = 0) ->
+    conj (D i i) * D i i = 1.
+  Proof.
+    intros HD Hi Hoff. specialize (HD i i Hi Hi). unfold Mat.mmul, Mat.madj in HD.
+    rewrite (sumn_single n i) in HD; try assumption.
+    - rewrite HD. apply mid_eq.
+    - intros k Hk Hne. rewrite (Hoff k i) by assumption. ring.
+  Qed.
+
+  (* ---- the mode flip ---- *)
+  Definition flipm (n : nat) (A : mat) : mat := fun i j => A (n - 1 - i)%nat (n - 1 - j)%nat.
+
+  Lemma sumn_rev n f : sumn n f = sumn n (fun k => f (n - 1 - k)%nat).
+  Proof.
+    induction n as [|n IH]; [reflexivity|].
+    rewrite (sumn_S_l n (fun k => f (S n - 1 - k)%nat)). simpl sumn at 1.
+    replace (S n - 1 - 0)%nat with n by lia.
+    rewrite IH. rewrite (sumn_ext n (fun i => f (S n - 1 - S i)%nat) (fun k => f (n - 1 - k)%nat))
+      by (intros i Hi; f_equal; lia). ring.
+  Qed.
+
+  Lemma flipm_mmul n A B : meq n (flipm n (mmul n A B)) (mmul n (flipm n A) (flipm n B)).
+  Proof.
+    intros i j _ _. unfold flipm, Mat.mmul. rewrite sumn_rev. reflexivity.
+  Qed.
+
+  Lemma flipm_flipm n A : meq n (flipm n (flipm n A)) A.
+  Proof.
+    intros i j Hi Hj. unfold flipm. f_equal; lia.
+  Qed.
+
+  Lemma flipm_compat n A B : meq n A B -> meq n (flipm n A) (flipm n B).
+  Proof. intros H i j Hi Hj. unfold flipm. apply H; lia. Qed.
+
+  Lemma flipm_embed2 n a b u00 u01 u10 u11 :
+    a < n -> b < n ->
+    meq n (flipm n (embed2 a b u00 u01 u10 u11)) (embed2 (n - 1 - a) (n - 1 - b) u00 u01 u10 u11).
+  Proof.
+    intros Ha Hb i j Hi Hj. unfold flipm, Mat.embed2, Mat.mid.
+    destruct (Nat.eqb_spec (n - 1 - i) a), (Nat.eqb_spec i (n - 1 - a)); try lia;
+    destruct (Nat.eqb_spec (n - 1 - j) a), (Nat.eqb_spec j (n - 1 - a)); try lia;
+    destruct (Nat.eqb_spec (n - 1 - j) b), (Nat.eqb_spec j (n - 1 - b)); try lia;
+    destruct (Nat.eqb_spec (n - 1 - i) b), (Nat.eqb_spec i (n - 1 - b)); try lia;
+    try reflexivity;
+    destruct (Nat.eqb_spec (n - 1 - i) (n - 1 - j)), (Nat.eqb_spec i j); try lia; reflexivity.
+  Qed.
+End Gen.
+
+(* Part 2: the model over complex pairs (cplx o), o an abstract "real" *-ring. *)
+Section Model.
+  Context {K : Type} {o : ops K} {SR : StarRing o}.
+  Let Rr := sr_ring (o:=o).
+  Add Ring Kr2 : Rr.
+  Notation C := (K * K)%type.
+  Notation co := (cplx o).
+  Local Notation "0" := (k0 o).
+  Local Notation "1" := (k1 o).
+  Local Notation "a + b" := (kadd o a b).
+  Local Notation "a * b" := (kmul o a b).
+  Local Notation "a - b" := (ksub o a b).
+  Local Notation "- a" := (kopp o a).
+  Local Notation cmat := (@mat C).
+  Local Notation cmeq := (@meq C).
+
+  Ltac cx := unfold cre, ci, gph; simpl; unfold cmul, cadd, csub, copp, cconj; simpl; f_equal; ring.
+
+  Lemma cre_conj a : kconj co (cre o a) = cre o a.
+  Proof. cx. Qed.
+  Lemma ci_sq : kmul co (ci o) (ci o) = kopp co (k1 co).
+  Proof. cx. Qed.
+  Lemma cmul_1_r (x : C) : kmul co x (k1 co) = x.
+  Proof. destruct x. cx. Qed.
+  Lemma gph_def c s : gph o c s = kmul co (ci o) (kadd co (cre o c) (kmul co (ci o) (cre o s))).
+  Proof. cx. Qed.
+  Lemma gph_unit c s : c * c + s * s = 1 -> kmul co (gph o c s) (kconj co (gph o c s)) = k1 co.
+  Proof. intros H. unfold gph; simpl; unfold cmul, cconj; simpl. f_equal; [|ring]. rewrite <- H. ring. Qed.
+  Lemma cre_cs c s : c * c + s * s = 1 ->
+    kmul co (cre o c) (cre o c) = ksub co (k1 co) (kmul co (cre o s) (cre o s)).
+  Proof. intros H. unfold cre; simpl; unfold cmul, csub; simpl. f_equal; [|ring]. rewrite <- H. ring. Qed.
+  Lemma cis_sq c s : (c, s) = kadd co (cre o c) (kmul co (ci o) (cre o s)).
+  Proof. cx. Qed.
+  Lemma unit_pair c s : c * c + s * s = 1 -> kmul co (c, s) (kconj co (c, s)) = k1 co.
+  Proof. intros H. simpl; unfold cmul, cconj; simpl. f_equal; [|ring]. rewrite <- H. ring. Qed.
+
+  (* bs_matrix is unitary whenever the amplitudes are those of angles *)
+  Lemma bs_amp_unitary n m1 m2 c s (e : C) :
+    m1 < n -> m2 < n -> m1 <> m2 -> c * c + s * s = 1 -> kmul co e (kconj co e) = k1 co ->
+    unitary co n (bs_amp o m1 m2 c s e).
+  Proof.
+    intros H1 H2 H12 Hcs He. unfold bs_amp.
+    apply (bs_unitary_gen (o:=co) (cre o c) (cre o s) e (gph o c s));
+      try assumption; try apply cre_conj; [apply cre_cs | apply gph_unit]; assumption.
+  Qed.
+
+  Section WithEnv.
+    Variable E : env (K:=K).
+    Hypothesis Hcis : forall x, fst (e_cis E x) * fst (e_cis E x) + snd (e_cis E x) * snd (e_cis E x) = 1.
+
+    Lemma cis_unit x : kmul co (e_cis E x) (kconj co (e_cis E x)) = k1 co.
+    Proof. specialize (Hcis x). destruct (e_cis E x) as [c s]. apply unit_pair. exact Hcis. Qed.
+
+    Lemma bs_matrix_unitary n m1 m2 theta phi :
+      m1 < n -> m2 < n -> m1 <> m2 -> unitary co n (bs_matrix o E m1 m2 theta phi).
+    Proof.
+      intros. unfold bs_matrix. apply bs_amp_unitary; try assumption; [apply Hcis | apply cis_unit].
+    Qed.
+
+    (* ---- compile ---- *)
+    Definition cstep (n : nat) (M : cmat) (c : comp (K:=K)) : cmat :=
+      match c with
+      | CBarrier _ => M
+      | _ => tab co n (mmul co n (comp_mat o E c) M)
+      end.
+
+    Lemma cstep_spec n M c : cmeq n (cstep n M c) (mmul co n (comp_mat o E c) M).
+    Proof.
+      destruct c; simpl; try apply tab_spec.
+      apply meq_sym. apply (mmul_id_l (o:=co)).
+    Qed.
+
+    Lemma compile_from_cons n M c l : compile_from o E n M (c :: l) = compile_from o E n (cstep n M c) l.
+    Proof. reflexivity. Qed.
+
+    Lemma compile_from_app n M a b :
+      compile_from o E n M (a ++ b) = compile_from o E n (compile_from o E n M a) b.
+    Proof. unfold compile_from. apply fold_left_app. Qed.
+
+    Lemma cstep_compat n M M' c : cmeq n M M' -> cmeq n (cstep n M c) (cstep n M' c).
+    Proof.
+      intros H. eapply meq_trans; [apply cstep_spec|]. eapply meq_trans; [|apply meq_sym, cstep_spec].
+      apply (mmul_compat (o:=co)); [apply meq_refl|exact H].
+    Qed.
+
+    Lemma compile_from_compat n M M' l :
+      cmeq n M M' -> cmeq n (compile_from o E n M l) (compile_from o E n M' l).
+    Proof.
+      revert M M'; induction l as [|c l IH]; intros M M' H; [exact H|].
+      rewrite !compile_from_cons. apply IH. apply cstep_compat. exact H.
+    Qed.
+
+    Lemma compile_from_mul n M l :
+      cmeq n (compile_from o E n M l) (mmul co n (compile o E n l) M).
+    Proof.
+      unfold compile. revert M; induction l as [|c l IH]; intros M.
+      - apply meq_sym. apply (mmul_id_l (o:=co)).
+      - rewrite !compile_from_cons.
+        eapply meq_trans; [apply IH|].
+        eapply meq_trans; [|apply (mmul_compat (o:=co)); [apply meq_sym, IH|apply meq_refl]].
+        eapply meq_trans; [apply (mmul_compat (o:=co)); [apply meq_refl|apply cstep_spec]|].
+        eapply meq_trans; [|apply (mmul_compat (o:=co)); [apply (mmul_compat (o:=co)); [apply meq_refl|apply meq_sym, cstep_spec]|apply meq_refl]].
+        intros i j _ _. rewrite <- (mmul_assoc (o:=co)). 
+        apply (mmul_compat (o:=co)); try assumption; [|apply meq_refl].
+        apply (mmul_compat (o:=co)); [apply meq_refl|]. apply meq_sym. apply (mmul_id_r (o:=co)).
+    Qed.
+  End WithEnv.
+End Model.
